@@ -80,9 +80,11 @@ type world struct {
 
 // slot is one thing that was put in the container: a promise (possibly nil) or a direct result.
 type slot struct {
-	p    *promise.Promise[int] // nil for SetPromise(nil) and for SetResult
-	res  *result               // result once known (SetResult: at once; promise: when resolved)
-	nilP bool
+	// resolvedAt: stamp taken just before the promise was resolved (0 = resolved before it was installed)
+	resolvedAt int
+	p          *promise.Promise[int] // nil for SetPromise(nil) and for SetResult
+	res        *result               // result once known (SetResult: at once; promise: when resolved)
+	nilP       bool
 }
 
 func (w *world) await(x *awaiter, target promise.PromiseLike[int]) {
@@ -191,11 +193,16 @@ func (w *world) checkReturn(x *awaiter, v int, err error, ret int) {
 	}
 	for _, wr := range w.hist.Writes {
 		s := wr.Val.(*slot)
-		if s.res != nil && s.res.v == v && s.res.err == err && w.hist.Possible(wr, x.inv, ret, nil) {
+		// the promise must have been current at a moment of the call at which it already had its result
+		from := x.inv
+		if s.resolvedAt > from {
+			from = s.resolvedAt
+		}
+		if s.res != nil && s.res.v == v && s.res.err == err && from <= ret && w.hist.Possible(wr, from, ret, nil) {
 			return
 		}
 	}
-	c.Fail("C11.R2.container-wrong-result", "container awaiter %d (form %d) returned (%d,%v), which is not the result of any promise that was current during the call, and none of its own interruption sources explains it", x.id, x.form, v, err)
+	c.Fail("C11.R2.container-wrong-result", "container awaiter %d (form %d) returned (%d,%v), which is not the result of any promise that was current (and resolved) at some moment of the call, and none of its own interruption sources explains it", x.id, x.form, v, err)
 }
 
 func (w *world) gate() {
@@ -258,6 +265,7 @@ func (w *world) containerSetter(id, nops int) {
 			if when == 1 || when == 2 {
 				w.gate()
 				s.res = &r // set before the call: an awaiter may observe it as soon as SetResult publishes
+				s.resolvedAt = c.Tick()
 				p.SetResult(r.v, r.err)
 				c.S.Count("probe:inner-promise-resolved-late")
 			}
